@@ -93,6 +93,21 @@ Theorem C01_real_protocols_routed : forall S r, In r rows ->
 Proof. intros S r I holder gate regd. apply every_member_routed; [exact I|apply real_reg_conforming]. Qed.
 Print Assumptions C01_real_protocols_routed.
 
+(* FacadeAppleTV.connect: for EVERY list of added SetupData with EVERY outcome of their connect():
+   an instance takes part in routing only if its SetupData's connect() returned True (and it is
+   the one set up for its protocol); a call is never executed by a protocol that did not connect. *)
+Theorem C01_only_connected_take_part : forall added,
+  (forall p i, In (p, i) (connect_regs added []) ->
+     In (p, true, Some i) added /\ reg_of (connect_regs added []) p = Some i) /\
+  (forall order p, find_instance (reg_of (connect_regs added [])) order = Routed p ->
+     exists i, In (p, true, Some i) added /\ overrides i = true).
+Proof.
+  intro added. split.
+  - intros p i H. split; [exact (proj1 (connect_regs_In added [] p i H))|exact (connect_regs_distinct added [] p i H)].
+  - intros order p. exact (routed_connected added order p).
+Qed.
+Print Assumptions C01_only_connected_take_part.
+
 (* FacadeAppleTV.takeover is all-or-nothing: granted iff every requested interface of the device
    is free (none requested twice), then exactly those are held by p; otherwise InvalidStateError
    and the state is what it was (everything acquired on the way is rolled back). *)
